@@ -242,6 +242,13 @@ def corpus():
              ("a.[b,c]:d", "[a].[[b],c]:[d]"), ("a.items:b", "a . items : b"), ("a.b.*", "[a.b].*"),
              ("x.+m,y", "[x.+ m],[y]")]
     cs += [dict(kind="pair", s1=a, s2=b) for a, b in pairs]
+    # every whitespace character of the lexer, in leading, trailing and every inner token-boundary position
+    for toks in (["a"], ["items"], ["name"], ["a", ".", "b"], ["a", ":", "items"], ["+", "m"], ["*"], ["a", ".", "*"],
+                 ["[", "a", "]"], ["a", ",", "b"], ["[", "a", ",", "b", "]", ".", "c"]):
+        base = "".join(toks)
+        for ws in (" ", "\t", "\n", "\r", "\f", "\r\n", "\n\n"):
+            for pos in range(len(toks) + 1):
+                cs.append(dict(kind="pair", s1=base, s2="".join(toks[:pos]) + ws + "".join(toks[pos:])))
     diff = [("a.b", "a.c"), ("a.b", "a:b"), ("a.[b,c]", "a.[b,d]"), ("a.items", "a.item"), ("a.+m", "a.+n"), ("a.*", "a.b"),
             ("a.b.c", "a.b.d"), ("a,b", "a,c"), ("x.[a.b,c]", "x.[a:b,c]")]
     cs += [dict(kind="pair", same=False, s1=a, s2=b) for a, b in diff]
